@@ -113,8 +113,8 @@ def _mutate(r, base: Dict[str, Any]) -> List[Dict[str, Any]]:
     return edits
 
 
-def _apply_edits(obj: Dict[str, Any], edits: List[Dict[str, Any]]) -> Dict[str, Any]:
-    out = copy.deepcopy(obj)
+def _apply_edits(obj: Dict[str, Any], edits: List[Dict[str, Any]], inplace: bool = False) -> Dict[str, Any]:
+    out = obj if inplace else copy.deepcopy(obj)
     for e in edits:
         cur = out
         ok = True
@@ -141,7 +141,7 @@ def generate(seed: int, tier: str) -> Dict[str, Any]:
     edits = _mutate(rng.stream("edits"), base)
     fate = r.weighted([("intact", 4), ("never_written", 1), ("removed", 2), ("truncated", 1), ("garbled", 1), ("killed", 2)])
     return {"base": base, "edits": edits, "cur_version": "8", "fate": fate, "cut": r.randint(0, 200), "kill_at": r.randint(0, 30),
-            "full_sibling": r.chance(0.4), "damage_before_write": r.chance(0.5), "sibling_fate": r.choice([None, None, "truncated", "garbled"])}
+            "full_sibling": r.chance(0.4), "damage_before_write": r.chance(0.5), "sibling_fate": r.choice([None, None, "truncated", "garbled"]), "in_place": r.chance(0.4)}
 
 
 def execute(p: Dict[str, Any]) -> Dict[str, Any]:
@@ -192,10 +192,18 @@ def execute(p: Dict[str, Any]) -> Dict[str, Any]:
                 faults = [{"k": int(p["kill_at"]), "kind": "crash"}] if fate == "killed" else []
                 fs = SimFS(root, plan=FaultPlan(faults), clock=clock)
                 with fs:
+                    # the engine snapshots ONE long-lived state object turn after turn: with "in_place" the object handed to the
+                    # baseline write is the very object that is then edited and handed to the delta-mode write
+                    live = copy.deepcopy(base) if p.get("in_place") else base
                     try:
-                        base_path, _ = esnap.write_snapshot_auto(d, etag_from=None, etag_to="7", payload=base, delta_mode=False)
+                        base_path, _ = esnap.write_snapshot_auto(d, etag_from=None, etag_to="7", payload=live, delta_mode=False)
                     except SimCrash:
                         stats["kills_fired"] = 1
+                    if p.get("in_place"):
+                        _apply_edits(live, p["edits"], inplace=True)
+                        live["version_etag"] = p["cur_version"]
+                        cur = live
+                        stats["in_place_payloads"] = 1
             sibling_damaged = False
             damaged_before = False
             bp0 = os.path.join(d, "snapshot-7.full.json")
